@@ -393,6 +393,29 @@ func (c20) Exec(ctx *core.Ctx, cs *core.Case) {
 		ctx.Inconclusive("fewer than 3 sizes measured for " + f.name)
 		return
 	}
+	// Escalation: a CPU exponent that looks super-linear on sizes too small for the absolute guard below
+	// (50 ms at the largest size) is followed to larger inputs, four times longer each, before anything is decided.
+	for next := sizes[len(sizes)-1] * 4; stopped == "" && len(ms) >= 3 && next <= 1<<18 && slope(ns, cpus) > 1.5 &&
+		ms[len(ms)-1].cpu > 5e6 && ms[len(ms)-1].cpu <= 50e6 && ms[len(ms)-1].alloc < 64<<20; next *= 4 {
+		var mm measurement
+		if pan := func() (p any) {
+			defer func() { p = recover() }()
+			mm = measure(f, next)
+			return nil
+		}(); pan != nil {
+			url.VerifEnabled = false
+			ctx.Violate("panic while measuring", "", fmt.Sprint(pan), f.name)
+			return
+		}
+		ms = append(ms, mm)
+		ns = append(ns, mm.n)
+		allocs = append(allocs, mm.alloc)
+		steps = append(steps, mm.steps)
+		cpus = append(cpus, mm.cpu)
+		ctx.NontrivialKey(fmt.Sprintf("%s/%d", f.name, next))
+		ctx.Count("measurements")
+		ctx.Count("cpu_escalations")
+	}
 	sa, ss, sc := slope(ns, allocs), slope(ns, steps), slope(ns, cpus)
 	line := fmt.Sprintf("%-28s alloc=%.2f steps=%.2f cpu=%.2f  bytes/n@max=%.1f steps/n@max=%.2f cpu@max=%.2fms%s", f.name, sa, ss, sc,
 		float64(ms[len(ms)-1].alloc)/float64(ms[len(ms)-1].n), float64(ms[len(ms)-1].steps)/float64(ms[len(ms)-1].n), float64(ms[len(ms)-1].cpu)/1e6, stopped)
